@@ -166,3 +166,59 @@ class Disp_total(Contract):
         g.holds('%d inputs enumerated' % len(out), len(out) > 100)
         g.holds('disp returns the printed string and raises nothing'
                 + ('' if not bad else ' (first failing input: %s, title %r, nd %d: %s; %d failing)' % (bad[0] + (len(bad),))), not bad)
+
+
+@register
+class Disp_values_roundtrip(Contract):
+    """the numbers parsed back from the rendered rows equal the elements rounded to `nd` decimals (within half a unit in the
+    last place), for a palette of magnitudes from 4e-9 to 9998.9 of both signs, shapes of 1 to 3 axes, nd 0..8 -- concrete
+    values through the executed source: complements the token abstraction of Disp_faithful, which cannot see digits"""
+    prop = 'C20'
+    target = DISP + ':dispa'
+    replayable = False
+    n_samples = 2
+    shape_bound = 'palette of 22 magnitudes x 2 signs; shapes (n,), (2,n), (2,2,n); nd 0..8'
+
+    def setup(self, g):
+        g.real('unused', lo=0.0, hi=1.0)
+        return (), {}
+
+    def run(self, g, fn, args, kwargs):
+        import numpy as np
+        mags = [0.0, 4e-9, 6e-9, 4e-7, 7e-7, 4e-5, 7e-5, 0.0004, 0.0007, 0.004, 0.006, 0.04, 0.07, 0.4, 0.8, 1.5, 2.25, 12.345678912,
+                123.456, 999.5, 9998.9, 0.5]
+        pal = []
+        for m in mags:
+            pal += [m, -m]
+        pal = np.array(pal)
+        num = re.compile(r'-?\d+\.?\d*(?:[eE][-+]?\d+)?')
+        bad = []
+        n = 0
+        for nd in range(0, 9):
+            for arr in (pal, np.stack([pal, pal[::-1]]), np.stack([np.stack([pal, pal[::-1]]), np.stack([pal * 0.5, pal])])):
+                n += 1
+                try:
+                    s = fn(arr, 'MATRIX', nd)
+                except Exception as e:
+                    bad.append((arr.shape, nd, 'raised %s' % type(e).__name__))
+                    continue
+                got = []
+                for ln in s.split('\n'):
+                    m = re.match(r'^[^║╔╚]*[║╔╚] (.*) [║╗╝]$', ln)
+                    if m and ',' in m.group(1) or (m and num.fullmatch(m.group(1).strip())):
+                        got += [float(x) for x in m.group(1).split(',') if x.strip()]
+                want = [round(float(x), nd) for x in arr.reshape(-1)]
+                if len(got) != len(want):
+                    bad.append((arr.shape, nd, 'parsed %d numbers, expected %d' % (len(got), len(want))))
+                    continue
+                for a, b, x in zip(got, want, arr.reshape(-1)):
+                    if abs(a - b) > 0.5 * 10 ** (-nd) + 1e-12:
+                        bad.append((arr.shape, nd, 'element %r shown as %r, expected %r' % (float(x), a, b)))
+                        break
+        return n, bad
+
+    def post(self, g, out, args, kwargs):
+        n, bad = out
+        g.holds('%d (array, decimals) cases rendered and parsed back' % n, n == 27)
+        g.holds('every rendered number equals the element rounded to nd decimals'
+                + ('' if not bad else ' (first failing case: shape %s, nd %s: %s; %d failing)' % (bad[0] + (len(bad),))), not bad)
